@@ -154,12 +154,17 @@ CLAIMED.update({
                 "a start state that does not depend on the entry state (mode false, no positionals, all entities reset) and its frame excludes the declarations; positionals and "
                 "provided are locals of parse(). Hence the result is a function of declaration, vector and environment.", note=OPT_NOTE, ref="5 (C14)", technique=OPT_TECH),
 })
-NA.update({
-    "C15": ("usage()/format()/format_padded() build text through std::ostream/std::stringstream with tellp-based column arithmetic, nitro::format and lang::join; a contract over these needs a "
-            "character-level stream model in which line width and word order are expressible, and CBMC's string reasoning over symbolic-length buffers did not scale in this image (memcpy of 64 symbolic "
-            "bytes: 109 s). Only the listing-order part is proved (C13 job group_*: a new option is appended to order_ exactly once, a re-declaration never adds an entry); "
-            "the stream-independence defect found by inspection was repaired (fix d00e886) and is demonstrated natively in findings/options_defects.cpp. No claim is made for C15."),
-})
+CLAIMED["C15"] = dict(
+    text=("Partial, clause by clause. PROVED (unbounded number of words, symbolic word lengths < 2^20, any 0 <= left_pad <= max_width <= 4096): io::terminal::format_padded writes every "
+          "word of split(text, ' ') exactly once and in order, and no line grows beyond max_width unless a word on it is longer than a whole line (max_width - left_pad) - loop invariant "
+          "relating the `space` counter to the stream column, monitor inside the stream model; group::usage prints nothing for an empty group and otherwise formats every entry of order_ "
+          "exactly once, in order (loop invariant); group::option/multi_option/toggle append a new option to order_ exactly once and never on a re-declaration (shared with C13). "
+          "NOT DECIDED by this check: the content of one option's block (short and long spelling, placeholder, environment hint, default: base::format, nitro::format, lang::join), the "
+          "synopsis line of parser::usage, group creation order in parser::usage, and stream independence of usage()/base::format (both build their text in local stringstreams; the "
+          "defect that made the synopsis depend on the target stream was repaired by fix d00e886 and is demonstrated natively, not proved)."),
+    note=TRUST + " std::ostream is a model (formatting width, column, position; operator<<(char/string), setw, endl, tellp as the standard says); format_padded is verified for a stream that holds no line break yet "
+         "(position == column), which is what both call sites pass after fix d00e886; text of < 1024 words (keeps the int counter `space` in range). lang::split / replace_all by their C17 contracts.",
+    ref="5 (C15), 10", technique="CBMC function contracts (DFCC) with a loop invariant over an abstract output stream that monitors line width and word order")
 
 NOT_YET = "check not built yet in this round (see DESIGN.md section 9 for the plan); no claim is made"
 
